@@ -32,7 +32,8 @@ KEYWORD_RENAMES = ["class", "type", "in", "default", "func", "var", "val", "is",
                    "break", "continue", "return", "throw", "try", "catch", "self", "super", "nil", "true", "false", "let",
                    "where", "while", "for", "if", "else", "None", "from", "global", "lambda", "pass", "Self", "Type", "Any"]
 
-MAPS = {"typescript": [{}, {}, {"Url": "string"}, {"Foo": "FooMapped"}, {"Option<String>": "Maybe"}],
+MAPS = {"typescript": [{}, {}, {"Url": "string"}, {"Foo": "FooMapped"}, {"Option<String>": "Maybe"}, {"String": "Date"}, {"u32": "Date", "Foo": "Date"},
+                       {"bool": "Uint8Array", "String": "Date"}],
         "kotlin": [{}, {}, {"Url": "String"}, {"Foo": "FooMapped", "Bar": "kotlin.Any"}, {"T": "Mapped"}],
         "python": [{}, {}, {"Url": "AnyUrl"}, {"Vec<u8>": "bytes"}, {"Foo": "bytes", "Bar": "datetime"}, {"String": "bytes", "u8": "bytes"}],
         "scala": [{}, {}, {"Url": "String"}, {"Foo": "FooMapped"}, {"u8": "Short", "Option<String>": "Maybe"}],
@@ -211,6 +212,29 @@ def ext_typescript(text):
     return out
 
 
+def ts_reviver_problems(text):
+    """TypeScript binds a JSON key to a field a second time: the generated reviver turns the value found under `key === "<k>"` into a
+    Date.  Every key listed there must be the key of a property printed with that type (soundness of the second binding; that the list
+    can be incomplete when a *special* type is mapped to Date - format_special_type re-inserts an empty set - is outside C01)."""
+    probs, n = [], 0
+    declared = {"Date": set(), "Uint8Array": set()}
+    for line in text.split("\n"):
+        m = TS_FIELD.match(line)
+        ty = re.sub(r"( \| (null|undefined))+$", "", m.group(3)) if m else None
+        if m and ty in declared:
+            declared[ty].add(ts_key(m.group(1)))
+    for m in re.finditer(r"^    if \((.*)\) \{\n        return new (Date|Uint8Array)", text, re.M):
+        for k in re.finditer(r'key === "((?:[^"\\]|\\.)*)"', m.group(1)):
+            key = k.group(1)
+            if "\\" in key:
+                continue
+            n += 1
+            if key not in declared[m.group(2)]:
+                probs.append("typescript: the reviver turns the value under JSON key %r into a %s, but no %s property carries that key "
+                             "(declared: %s)" % (key, m.group(2), m.group(2), sorted(declared[m.group(2)])))
+    return probs, n
+
+
 def ext_kotlin(text):
     out, cur, pending = {}, None, None
     for line in text.split("\n"):
@@ -370,7 +394,7 @@ def oracle(lang, cfg, file, ans):
     if "ok" not in ans:
         return [], 0
     got = EXTRACT[lang]("\n".join(ans["ok"][k] for k in sorted(ans["ok"])))
-    probs, n = [], 0
+    probs, n = ts_reviver_problems("\n".join(ans["ok"][k] for k in sorted(ans["ok"]))) if lang == "typescript" else ([], 0)
     for kind, names, keys in expected(file):
         d = decl_name(lang, cfg, kind, names)
         if d not in got:
